@@ -1125,3 +1125,136 @@ Qed.
 
 End Top.
 
+
+(** ** C06: the returned handle does not depend on the cache or on history *)
+
+Section Transparent.
+(** two arbitrary cache implementations and operand orders *)
+Variables gt1 gt2 : ref -> ref -> bool.
+Variables C1 C2 : Type.
+Variable cget1 : C1 -> N -> list ref -> option ref.
+Variable cadd1 : C1 -> N -> list ref -> ref -> C1.
+Variable cget2 : C2 -> N -> list ref -> option ref.
+Variable cadd2 : C2 -> N -> list ref -> ref -> C2.
+Hypothesis L1 : lossy cget1 cadd1.
+Hypothesis L2 : lossy cget2 cadd2.
+
+(** generic form: two runs of anything satisfying [result_ok] *)
+Lemma runs_same_function : forall s c1 c2 res1 res2 Phi s1 c1' r1 s2 c2' r2,
+  result_ok C1 cget1 s c1 res1 Phi -> result_ok C2 cget2 s c2 res2 Phi ->
+  res1 = Some (s1, c1', r1) -> res2 = Some (s2, c2', r2) ->
+  forall c0, bchoice c0 -> semk s1 (FUEL s1) r1 c0 = semk s2 (FUEL s2) r2 c0.
+Proof.
+  intros s c1 c2 res1 res2 Phi s1 c1' r1 s2 c2' r2
+    [sa [ca [ra [Ea [_ [_ [_ [Da _]]]]]]]] [sb [cb [rb [Eb [_ [_ [_ [Db _]]]]]]]] E1 E2 c0 Hc.
+  rewrite E1 in Ea. rewrite E2 in Eb. inversion Ea; subst. inversion Eb; subst.
+  unfold FUEL. rewrite (proj2 Da c0 Hc), (proj2 Db c0 Hc). reflexivity.
+Qed.
+
+
+(** (a) whatever the two caches contain (as long as it is correct), the two
+    results denote the same function *)
+Theorem apply_bin_cache_transparent_sem : forall op s c1 c2 f g fuel1 fuel2 s1 c1' r1 s2 c2' r2,
+  BddOK s -> CacheOK cget1 s c1 -> CacheOK cget2 s c2 -> ref_ok s f -> ref_ok s g ->
+  FUEL s <= fuel1 -> FUEL s <= fuel2 ->
+  apply_bin gt1 C1 cget1 cadd1 fuel1 s c1 op f g = Some (s1, c1', r1) ->
+  apply_bin gt2 C2 cget2 cadd2 fuel2 s c2 op f g = Some (s2, c2', r2) ->
+  forall c0, bchoice c0 -> semk s1 (FUEL s1) r1 c0 = semk s2 (FUEL s2) r2 c0.
+Proof.
+  intros op s c1 c2 f g fuel1 fuel2 s1 c1' r1 s2 c2' r2 B O1 O2 Hf Hg F1 F2 E1 E2.
+  destruct (den_exists s f B Hf) as [phi Df]. destruct (den_exists s g B Hg) as [psi Dg].
+  unfold FUEL in F1, F2.
+  eapply runs_same_function; [| | exact E1 | exact E2].
+  - apply (apply_bin_ok gt1 C1 cget1 cadd1 L1 op fuel1 s c1 f g phi psi B O1 Df Dg). lia.
+  - apply (apply_bin_ok gt2 C2 cget2 cadd2 L2 op fuel2 s c2 f g phi psi B O2 Df Dg). lia.
+Qed.
+
+(** (b) repeating the operation in any later state of the same table (more
+    nodes, any correct cache of any implementation, any operand order) returns
+    the identical reference and leaves the table unchanged *)
+Theorem apply_bin_history_independent : forall op s c1 f g fuel1 s1 c1' r1,
+  BddOK s -> CacheOK cget1 s c1 -> ref_ok s f -> ref_ok s g -> FUEL s <= fuel1 ->
+  apply_bin gt1 C1 cget1 cadd1 fuel1 s c1 op f g = Some (s1, c1', r1) ->
+  forall s2 c2 fuel2, BddOK s2 -> extends s1 s2 -> CacheOK cget2 s2 c2 -> FUEL s2 <= fuel2 ->
+  exists c2', apply_bin gt2 C2 cget2 cadd2 fuel2 s2 c2 op f g = Some (s2, c2', r1).
+Proof.
+  intros op s c1 f g fuel1 s1 c1' r1 B O1 Hf Hg F1 E1 s2 c2 fuel2 B2 X O2 F2.
+  destruct (den_exists s f B Hf) as [phi Df]. destruct (den_exists s g B Hg) as [psi Dg].
+  unfold FUEL in F1, F2.
+  destruct (apply_bin_ok gt1 C1 cget1 cadd1 L1 op fuel1 s c1 f g phi psi B O1 Df Dg ltac:(lia))
+    as [sa [ca [ra [Ea [Ba [Xa [_ [Da _]]]]]]]].
+  rewrite E1 in Ea. inversion Ea; subst sa ca ra.
+  assert (X02 : extends s s2) by (eapply extends_trans; eauto).
+  pose proof (den_extends s s2 _ _ B X02 Df) as Df2. pose proof (den_extends s s2 _ _ B X02 Dg) as Dg2.
+  destruct (apply_bin_ok gt2 C2 cget2 cadd2 L2 op fuel2 s2 c2 f g phi psi B2 O2 Df2 Dg2 ltac:(lia))
+    as [sb [cb [rb [Eb [_ [_ [_ [_ Sb]]]]]]]].
+  destruct (Sb r1 (den_extends s1 s2 _ _ Ba X Da)) as [-> ->].
+  exists cb. exact Eb.
+Qed.
+
+Theorem apply_not_history_independent : forall s c1 f fuel1 s1 c1' r1,
+  BddOK s -> CacheOK cget1 s c1 -> ref_ok s f -> FUEL s <= fuel1 ->
+  apply_not C1 cget1 cadd1 fuel1 s c1 f = Some (s1, c1', r1) ->
+  forall s2 c2 fuel2, BddOK s2 -> extends s1 s2 -> CacheOK cget2 s2 c2 -> FUEL s2 <= fuel2 ->
+  exists c2', apply_not C2 cget2 cadd2 fuel2 s2 c2 f = Some (s2, c2', r1).
+Proof.
+  intros s c1 f fuel1 s1 c1' r1 B O1 Hf F1 E1 s2 c2 fuel2 B2 X O2 F2.
+  destruct (den_exists s f B Hf) as [phi Df]. unfold FUEL in F1, F2.
+  pose proof (rlevel_le s (bo_wf s B) f).
+  destruct (apply_not_ok C1 cget1 cadd1 L1 fuel1 s c1 f phi B O1 Df ltac:(lia))
+    as [sa [ca [ra [Ea [Ba [Xa [_ [Da _]]]]]]]].
+  rewrite E1 in Ea. inversion Ea; subst sa ca ra.
+  assert (X02 : extends s s2) by (eapply extends_trans; eauto).
+  pose proof (den_extends s s2 _ _ B X02 Df) as Df2.
+  pose proof (rlevel_le s2 (bo_wf s2 B2) f).
+  destruct (apply_not_ok C2 cget2 cadd2 L2 fuel2 s2 c2 f phi B2 O2 Df2 ltac:(lia))
+    as [sb [cb [rb [Eb [_ [_ [_ [_ Sb]]]]]]]].
+  destruct (Sb r1 (den_extends s1 s2 _ _ Ba X Da)) as [-> ->].
+  exists cb. exact Eb.
+Qed.
+
+Theorem apply_ite_history_independent : forall s c1 f g h fuel1 s1 c1' r1,
+  BddOK s -> CacheOK cget1 s c1 -> ref_ok s f -> ref_ok s g -> ref_ok s h -> FUEL s <= fuel1 ->
+  apply_ite gt1 C1 cget1 cadd1 fuel1 s c1 f g h = Some (s1, c1', r1) ->
+  forall s2 c2 fuel2, BddOK s2 -> extends s1 s2 -> CacheOK cget2 s2 c2 -> FUEL s2 <= fuel2 ->
+  exists c2', apply_ite gt2 C2 cget2 cadd2 fuel2 s2 c2 f g h = Some (s2, c2', r1).
+Proof.
+  intros s c1 f g h fuel1 s1 c1' r1 B O1 Hf Hg Hh F1 E1 s2 c2 fuel2 B2 X O2 F2.
+  destruct (den_exists s f B Hf) as [phi Df]. destruct (den_exists s g B Hg) as [psi Dg].
+  destruct (den_exists s h B Hh) as [theta Dh]. unfold FUEL in F1, F2.
+  destruct (apply_ite_ok gt1 C1 cget1 cadd1 L1 fuel1 s c1 f g h phi psi theta B O1 Df Dg Dh ltac:(lia))
+    as [sa [ca [ra [Ea [Ba [Xa [_ [Da _]]]]]]]].
+  rewrite E1 in Ea. inversion Ea; subst sa ca ra.
+  assert (X02 : extends s s2) by (eapply extends_trans; eauto).
+  pose proof (den_extends s s2 _ _ B X02 Df) as Df2. pose proof (den_extends s s2 _ _ B X02 Dg) as Dg2.
+  pose proof (den_extends s s2 _ _ B X02 Dh) as Dh2.
+  destruct (apply_ite_ok gt2 C2 cget2 cadd2 L2 fuel2 s2 c2 f g h phi psi theta B2 O2 Df2 Dg2 Dh2 ltac:(lia))
+    as [sb [cb [rb [Eb [_ [_ [_ [_ Sb]]]]]]]].
+  destruct (Sb r1 (den_extends s1 s2 _ _ Ba X Da)) as [-> ->].
+  exists cb. exact Eb.
+Qed.
+
+End Transparent.
+
+(** (c) in its result table the returned reference is THE reference with the
+    result's meaning *)
+Theorem apply_bin_result_unique : forall gt C cget cadd, lossy cget cadd ->
+  forall op fuel s (c : C) f g s' c' r,
+  BddOK s -> CacheOK cget s c -> ref_ok s f -> ref_ok s g -> FUEL s <= fuel ->
+  apply_bin gt C cget cadd fuel s c op f g = Some (s', c', r) ->
+  forall r0, ref_ok s' r0 ->
+    (forall c0, bchoice c0 -> exists x y,
+        bvalue s f c0 x /\ bvalue s g c0 y /\ bvalue s' r0 c0 (eval_bop op x y)) ->
+    r0 = r.
+Proof.
+  intros gt C cget cadd L op fuel s c f g s' c' r B O Hf Hg F E r0 H0 Hsem.
+  destruct (den_exists s f B Hf) as [phi Df]. destruct (den_exists s g B Hg) as [psi Dg].
+  unfold FUEL in F.
+  destruct (apply_bin_ok gt C cget cadd L op fuel s c f g phi psi B O Df Dg ltac:(lia))
+    as [sa [ca [ra [Ea [Ba [_ [_ [Da _]]]]]]]].
+  rewrite E in Ea. inversion Ea; subst sa ca ra.
+  apply (den_canon s' r0 r (fun c0 => eval_bop op (phi c0) (psi c0)) Ba); [|exact Da].
+  split; [exact H0|]. intros c0 Hc. destruct (Hsem c0 Hc) as [x [y [Vx [Vy V0]]]].
+  rewrite (bvalue_fun s f c0 _ _ (proj2 Df c0 Hc) Vx), (bvalue_fun s g c0 _ _ (proj2 Dg c0 Hc) Vy).
+  exact V0.
+Qed.
